@@ -1379,9 +1379,9 @@ class SQLModel:
         )
         view_name = "order_rows_" + str(temp_id_source[0])
         temp_id_source[0] = temp_id_source[0] + 1
-        terms = None
-        if not using_was_None:
-            terms = {ci: None for ci in subusing}
+        # always name the columns: "SELECT *" would also return columns of the
+        # stored table that the table description does not declare
+        terms = {ci: None for ci in subusing}
         suffix: List[str] = []
         if len(order_node.order_columns) > 0:
             suffix = (
